@@ -402,6 +402,7 @@ type cas struct {
 	mode   int
 	nopd   int
 	failAt int
+	prog   *expr
 }
 
 func (c *cas) site(s string) { c.w.Site(s) }
@@ -413,10 +414,16 @@ func (c *cas) note(format string, a ...any) {
 }
 
 func (c *cas) witness() any {
-	return map[string]any{"check": c.name, "inputs": c.wit, "shapes": c.shapes}
+	m := map[string]any{"check": c.name, "inputs": c.wit, "shapes": c.shapes}
+	if c.prog != nil {
+		m["program"] = c.prog
+	}
+	return m
 }
 
 func (c *cas) shape(s string) { c.shapes = append(c.shapes, s) }
+
+func (c *cas) shapeHash(s string) { c.shapes = append(c.shapes, fmt.Sprintf("#%x", vrt.Hash64(s))) }
 
 // rawOpd draws an operand descriptor for the profile (no bookkeeping).
 func (c *cas) rawOpd(fail bool) opd {
